@@ -43,7 +43,8 @@ def gen_case(rng, cid, max_len=3, max_depth=2, allow=None, short_prob=0.0,
         if need and not need(top):
             continue
         w = sg.min_samples(top)
-        order, mode = sg.gen_layout(rng, w, short_prob=short_prob,
+        order, mode = sg.gen_layout(rng, w, short_prob=(0.0 if cid < len(_direct.CHAIN_POOL) else short_prob),   # the fixed pool always gets usable episodes
+                                        
                                     max_eps=max_eps if ep else 1,
                                     many=True if (ep and max_eps >= 3 and cid % 40 == 7) else None,
                                         # the fixed pool of pipelines meets non-contiguous arrangements whatever the random stream does
